@@ -433,19 +433,28 @@ Qed.
 Lemma lt32_lt40 xs : Forall (fun x => x < 32) xs -> Forall (fun x => x < 2 ^ 40) xs.
 Proof. apply Forall_impl. intros a H. change (2 ^ 40) with 1099511627776. lia. Qed.
 
+Lemma one_lt : CashAddr.L 19 < 2 ^ 40.
+Proof. vm_compute. reflexivity. Qed.
+Lemma zeros_bound c : pm_fold cash_params c (repeat 0 8) < 2 ^ 40.
+Proof. pose proof (fold_zeros_bound cash_params cash_wf c 8) as FB. rewrite cash_width in FB. apply FB. lia. Qed.
+Lemma polymod_bound p data : polymod (expand_prefix p ++ data ++ repeat 0 8) < 2 ^ 40.
+Proof.
+  rewrite app_assoc. rewrite cash_polymod_app. apply lxor_lt_pow2; [apply zeros_bound|exact one_lt].
+Qed.
+Lemma zeros_lt40 : Forall (fun x => x < 2 ^ 40) (repeat 0 8).
+Proof. repeat constructor. Qed.
+
 Theorem checksum_separates p1 p2 data : post_state p1 <> post_state p2 -> Forall (fun x => x < 32) data ->
   verify_checksum p1 (data ++ create_checksum p2 data) = false.
 Proof.
   intros Hne Hd. destruct (verify_checksum p1 (data ++ create_checksum p2 data)) eqn:E; [|reflexivity].
   exfalso. apply Hne.
-  apply cashaddr_checksum_unique_app in E; [|apply cashaddr_create_length|apply cashaddr_create_lt32].
-  unfold create_checksum in E.
+  pose proof (cashaddr_checksum_unique_app p1 data (create_checksum p2 data)
+                (cashaddr_create_length _ _) (cashaddr_create_lt32 _ _) E) as E'. clear E.
+  unfold create_checksum in E'.
   assert (Hz : Forall (fun x => x < 2 ^ 40) (data ++ repeat 0 8)).
-  { apply Forall_app. split; [apply lt32_lt40; exact Hd|]. repeat constructor. }
-  assert (B : forall p, polymod (expand_prefix p ++ data ++ repeat 0 8) < 2 ^ 40).
-  { intros p. rewrite cash_polymod_app. apply lxor_lt_pow2; [|reflexivity].
-    pose proof (fold_zeros_bound cash_params cash_wf) as FB. rewrite cash_width in FB.
-    unfold pm_fold in *. rewrite fold_left_app. apply (FB _ 8%nat). lia. }
-  apply unpack8_inj in E; auto. rewrite !cash_polymod_app in E. apply lxor_cancel_r in E.
+  { apply Forall_app. split; [apply lt32_lt40; exact Hd|exact zeros_lt40]. }
+  apply unpack8_inj in E'; [|apply polymod_bound|apply polymod_bound].
+  rewrite !cash_polymod_app in E'. apply lxor_cancel_r in E'.
   symmetry. apply (cash_fold_inj (data ++ repeat 0 8)); auto; apply post_state_bound.
 Qed.
